@@ -252,13 +252,17 @@ type canceller struct {
 // Preempt implements [jsonrpc2.Preempter].
 func (c *canceller) Preempt(ctx context.Context, req *jsonrpc.Request) (result any, err error) {
 	if req.Method == notificationCancelled {
+		// A notice that does not name a request cancels nothing. Leave it to the
+		// regular path, which answers a notice that (wrongly) carries an id with
+		// the standard code; an error returned here would be that answer, with a
+		// code of its own.
 		var params CancelledParams
 		if err := internaljson.Unmarshal(req.Params, &params); err != nil {
-			return nil, err
+			return nil, jsonrpc2.ErrNotHandled
 		}
 		id, err := jsonrpc2.MakeID(params.RequestID)
 		if err != nil {
-			return nil, err
+			return nil, jsonrpc2.ErrNotHandled
 		}
 		if f, ok := params.RequestID.(float64); ok && (f >= 1<<53 || f <= -(1<<53)) {
 			// As for request IDs (see jsonrpc2.DecodeMessage): float64 cannot
